@@ -525,7 +525,7 @@ def plan_xo(pid, tr, sd):
                 hs += [[("bind_value", k, k, "empty"), ("bind_uref_instance", k, 1 - k), ("grow",), ("bind_existing", k + 1, k, "empty")] for k in range(2)]
             for k, h in enumerate(hs):
                 many = t[0] == "array" or sum(1 for _ in wmode.ref_slots(t, sample_value(t, gens[0]))) > 3
-                for pl in ([pls[0], pls[4]] if tr == "quick" or many else [pls[0], pls[4], pls[5]]):
+                for pl in ([pls[0], pls[4]] if tr == "quick" or many or k >= 4 else [pls[0], pls[4], pls[5]]):
                     jobs.append((pid, "c08", label, t, gens[0], dict(pl, history=h, max_paths=400)))
     if tr == "thorough":
         # thorough: running out of space in the first chunk is explored (no roomy assumption) for types without
